@@ -373,3 +373,107 @@ def library_write_script(S):
             "component 7 %s" % S("d"), "setimportsource 7 5", "setimportreference 7 %s" % S("d1"),
             "variable 8 %s" % S("y"), "setunits_n 8 %s" % S("u"), "addvariable 7 8",
             "addcomponent 0 6", "addcomponent 6 7"]
+
+
+# ------------------------------------------------------------------------------------------------ inputs that interfere
+PREFIX_NAMES = ["milli", "kilo", "micro", "centi", "mega", "deci"]
+
+
+def near_copy(t, rng, mild=True):
+    """the same document with the same names everywhere (model, units, components, variables, ids) but other definitions:
+    multipliers (mild) or also prefixes / exponents of unit children, initial values, numbers in the math"""
+    if t[0] != "E":
+        return t
+    _, ns, name, attrs, kids = t
+    local = name.split(":")[-1]
+    attrs = list(attrs)
+    if ns == CELLML and local == "unit":
+        d = dict(attrs)
+        order = [n for n, _ in attrs]
+        old = d.get("multiplier", "1")
+        d["multiplier"] = rng.choice([x for x in ["2", "0.5", "1000", "7", "0.001"] if x != old])
+        if "multiplier" not in order:
+            order.append("multiplier")
+        if not mild and rng.random() < 0.5:
+            d["prefix"] = rng.choice([p for p in PREFIX_NAMES if p != d.get("prefix")])
+            if "prefix" not in order:
+                order.append("prefix")
+        if not mild and d.get("units") in ("second", "metre", "volt", "kilogram", "mole", "ampere") and rng.random() < 0.6:
+            d["units"] = rng.choice([b for b in ("second", "metre", "volt", "kilogram", "mole") if b != d["units"]])
+        attrs = [(n, d[n]) for n in order]
+    elif ns == CELLML and local == "variable":
+        attrs = [(n, (rng.choice(["3", "0.25", "-8", "1e2"]) if (n == "initial_value" and re.fullmatch(r"[-+0-9.eE]+", v)) else v))
+                 for n, v in attrs]
+    if ns == MATHML and local == "cn" and len(kids) == 1 and kids[0][0] == "T" and dict(attrs).get("type", "real") == "real":
+        kids = [("T", rng.choice(["3", "42", "0.125", "9.5"]))]
+    else:
+        kids = [near_copy(k, rng, mild) for k in kids]
+    return ("E", ns, name, attrs, kids)
+
+
+def with_1x_attributes(t, rng):
+    """a CellML 2.0 document that carries attributes only CellML 1.x knows (public_interface, cmeta:id) and an unknown one"""
+    CMETA = "http://www.cellml.org/metadata/1.0#"
+
+    def go(x, top):
+        if x[0] != "E":
+            return x
+        _, ns, name, attrs, kids = x
+        attrs = list(attrs)
+        local = name.split(":")[-1]
+        if top:
+            attrs = [a for a in attrs if a[0].startswith("xmlns")] + [("xmlns:cmeta", CMETA)] + [a for a in attrs if not a[0].startswith("xmlns")]
+            attrs.append(("cmeta:id", "meta_model"))
+        if ns == CELLML and local == "variable" and rng.random() < 0.7:
+            attrs.append(("public_interface", rng.choice(["in", "out", "none"])))
+        if ns == CELLML and local in ("component", "units", "variable") and rng.random() < 0.3:
+            attrs.append((rng.choice(["foo", "private_interface", "cmeta:id"]), rng.choice(["in", "x1", "none"])))
+            if attrs[-1][0] in [a[0] for a in attrs[:-1]]:
+                attrs.pop()
+        return ("E", ns, name, attrs, [go(k, False) for k in kids])
+    return go(t, True)
+
+
+def onex_document(rng, version="1.1"):
+    """a small CellML 1.0 / 1.1 document: units, two components with in/out variables, math, a group and a connection"""
+    ns = "http://www.cellml.org/cellml/%s#" % version
+    ws = rng.choice(["", "\n  "])
+    u = rng.choice(["u", "mV", "a"])
+    x, y = rng.choice(["x", "a", "v"]), rng.choice(["y", "b", "w"])
+    val = rng.choice(["1", "2.5", "100"])
+    extra = ' cmeta:id="m1" xmlns:cmeta="http://www.cellml.org/metadata/1.0#"' if rng.random() < 0.5 else ""
+    return ('<?xml version="1.0" encoding="UTF-8"?>\n<model xmlns="%s" xmlns:cellml="%s" name="m1x"%s>%s'
+            '<units name="%s"><unit units="second" prefix="milli"/></units>%s'
+            '<component name="c1"><variable name="%s" units="%s" public_interface="out" initial_value="1"/>'
+            '<math xmlns="%s"><apply><eq/><ci>%s</ci><cn cellml:units="%s">%s</cn></apply></math></component>%s'
+            '<component name="c2"><variable name="%s" units="%s" public_interface="in"/></component>%s'
+            '<group><relationship_ref relationship="encapsulation"/><component_ref component="c1"><component_ref component="c2"/></component_ref></group>%s'
+            '<connection><map_components component_1="c1" component_2="c2"/><map_variables variable_1="%s" variable_2="%s"/></connection>%s'
+            '</model>\n' % (ns, ns, extra, ws, u, ws, x, u, MATHML, x, u, val, ws, y, u, ws, ws, x, y, ws)).encode("utf-8")
+
+
+WARNING_DOCS = [
+    ('<model xmlns="%s" xmlns:xlink="%s" name="w1"><import xlink:href="nothing.cellml"/></model>' % (CELLML, XLINK)).encode(),
+    ('<model xmlns="%s" name="w2"><component name="c"/><encapsulation/></model>' % CELLML).encode(),
+]
+
+
+def consistent_document(rng):
+    """a small dimensionally CONSISTENT model: every variable of a component and the number it is set to are in the same user
+    units, so the analyser has nothing to say; names come from a tiny alphabet (near-copies and coincidences between documents)"""
+    bases = ["second", "metre", "volt", "kilogram", "mole"]
+    unames = rng.sample(["u", "v", "w", "mV"], rng.randint(1, 3))
+    units = ""
+    for n in unames:
+        pre = rng.choice(["", "", ' prefix="milli"', ' multiplier="60"', ' exponent="2"'])
+        units += '  <units name="%s"><unit units="%s"%s/></units>\n' % (n, rng.choice(bases), pre)
+    comps = ""
+    for k in range(rng.randint(1, 3)):
+        u = rng.choice(unames)
+        nv = rng.randint(1, 3)
+        vs = "".join('    <variable name="%s" units="%s"/>\n' % ("xyz"[i], u) for i in range(nv))
+        eqs = "".join('<apply><eq/><ci>%s</ci><cn cellml:units="%s">%s</cn></apply>' % ("xyz"[i], u, rng.choice(["1", "2.5", "40"]))
+                      for i in range(nv))
+        comps += ('  <component name="c%d">\n%s    <math xmlns="%s" xmlns:cellml="%s">\n      %s\n    </math>\n  </component>\n'
+                  % (k, vs, MATHML, CELLML, eqs))
+    return ('<?xml version="1.0" encoding="UTF-8"?>\n<model xmlns="%s" name="consistent">\n%s%s</model>\n' % (CELLML, units, comps)).encode()
